@@ -1,24 +1,31 @@
 #!/usr/bin/env python3
 """Apply a seeded patch to /repo, run the given checks (quick tier, no evidence written), undo the patch.
 usage: try_seeded.py <patch.diff> CHECK [CHECK...] [--runs N] [--tier thorough]
-Prints DETECTED/MISSED per check with the violation signatures."""
+Prints DETECTED/MISSED per check with the violation signatures.
+With TRY_REPO=<scratch git worktree of /repo> the patch is applied there instead and the checks build from it
+(VERIF_REPO), so that /repo itself stays untouched and usable; the checks run are those next to this script."""
 import subprocess, sys, os, re
+REPO = os.environ.get('TRY_REPO', '/repo')
+HERE = os.path.dirname(os.path.dirname(os.path.abspath(__file__)))
 args = sys.argv[1:]
 patch = os.path.abspath(args[0])
 checks = [a for a in args[1:] if re.match(r'^C\d+$', a)]
 extra = [a for a in args[1:] if a not in checks]
-st = subprocess.run(['git', '-C', '/repo', 'status', '--porcelain', '--untracked-files=no'], capture_output=True, text=True).stdout
+st = subprocess.run(['git', '-C', REPO, 'status', '--porcelain', '--untracked-files=no'], capture_output=True, text=True).stdout
 if st.strip():
-    sys.exit('refusing: /repo has uncommitted changes:\n' + st)
-r = subprocess.run(['git', '-C', '/repo', 'apply', patch], capture_output=True, text=True)
+    sys.exit('refusing: %s has uncommitted changes:\n' % REPO + st)
+r = subprocess.run(['git', '-C', REPO, 'apply', patch], capture_output=True, text=True)
 if r.returncode != 0:
     sys.exit('patch does not apply: ' + r.stderr)
 rc_all = {}
 try:
     for c in checks:
         env = dict(os.environ)
-        env['VERIF_REPLAY_DIR'] = '/var/tmp/verif-seeded-replays'
-        p = subprocess.run(['/verif/bin/vcheck', c, '--no-evidence'] + extra, capture_output=True, text=True, env=env)
+        env['VERIF_REPLAY_DIR'] = '/var/tmp/verif-seeded-replays' + ('' if REPO == '/repo' else '-' + os.path.basename(REPO))
+        if REPO != '/repo':
+            env['VERIF_REPO'] = REPO
+            env['VERIF_GEN_FALLBACK'] = '/repo'
+        p = subprocess.run([os.path.join(HERE, 'bin', 'vcheck'), c, '--no-evidence'] + extra, capture_output=True, text=True, env=env)
         sigs = re.findall(r'signature: (\S+)', p.stdout)
         tail = [l for l in p.stdout.splitlines() if l.startswith(('HARNESS', c + ':'))]
         verdict = 'DETECTED' if p.returncode == 1 else ('MISSED' if p.returncode == 0 else 'HARNESS-ERROR(rc=%d)' % p.returncode)
@@ -27,7 +34,7 @@ try:
             print('   ' + t[:300])
         rc_all[c] = p.returncode
 finally:
-    subprocess.run(['git', '-C', '/repo', 'checkout', '--', '.'], check=True)
-    left = subprocess.run(['git', '-C', '/repo', 'status', '--porcelain', '--untracked-files=no'], capture_output=True, text=True).stdout
+    subprocess.run(['git', '-C', REPO, 'checkout', '--', '.'], check=True)
+    left = subprocess.run(['git', '-C', REPO, 'status', '--porcelain', '--untracked-files=no'], capture_output=True, text=True).stdout
     if left.strip():
-        print('WARNING: /repo not clean after undo:\n' + left)
+        print('WARNING: %s not clean after undo:\n' % REPO + left)
